@@ -705,6 +705,18 @@ pub fn dump_body<'tcx>(tcx: TyCtxt<'tcx>, def: LocalDefId) -> Option<J> {
             o.push(("trait_default_of", J::S(def_path(tcx, trd))));
         }
         o.push(("name", J::S(tcx.item_name(did).to_string())));
+        // trait bounds on the function's own type parameters (`R: ClassRead`), so that `fn f<R: ClassRead>(r: &mut R)` and
+        // `fn f(r: &mut impl ClassRead)` can be read alike
+        let mut bounds: Vec<J> = Vec::new();
+        for (clause, _) in tcx.predicates_of(did).predicates.iter() {
+            if let Some(tp) = clause.as_trait_clause() {
+                let tp = tp.skip_binder();
+                if let ty::Param(p) = tp.self_ty().kind() {
+                    bounds.push(jo! {"param": J::S(p.name.to_string()), "trait": J::S(def_path(tcx, tp.def_id()))});
+                }
+            }
+        }
+        o.push(("bounds", J::A(bounds)));
     }
     // is this body inside a #[cfg(test)] module / a #[test] fn?  (reported for information)
     o.push(("n_nodes", J::I(d.n_nodes as i128)));
